@@ -1,5 +1,7 @@
 PY=/venv/bin/python -B
-.PHONY: setup sany selftest
+.PHONY: setup extras
 setup:
 	$(PY) harness/names.py
 	$(PY) harness/setup_check.py
+extras:
+	$(PY) harness/extras.py 4000
